@@ -274,6 +274,7 @@ theorem handleCharrefE_ok (orig : Option Nat) (name : PStr) (c : Err)
     · rw [h2] at h3; cases h3
     · exact h3
   · rename_i n _
+    unfold charrefTailE at h
     split at h
     · rename_i c' hd
       injection h with h; subst h
@@ -427,6 +428,262 @@ theorem soupFeedE_outcome (o : Obj V) :
       exact hc.callbacks c (hP.endOfInput o' c h)
 
 end
+
+/-! ### frames: an attempt of the envelope model writes only what the callbacks write -/
+
+theorem handleEventsE_frame {V : Type} (code : Code) (P : Prims V) (X : List Field) (hf : P.Frames X)
+    (orig : Option Nat) (evs : List Event) (o : Obj V) : AgreeOff X (handleEventsE code P orig evs o).1 o := by
+  induction evs generalizing o with
+  | nil => exact AgreeOff.refl _ _
+  | cons ev evs ih =>
+    cases ev with
+    | charref n =>
+      unfold handleEventsE
+      split
+      · exact AgreeOff.refl _ _
+      · rename_i d _
+        have hd := hf.applyData d o
+        generalize P.applyData d o = x at hd
+        obtain ⟨o', e⟩ := x
+        cases e with
+        | none => exact (ih o').trans hd
+        | some e => exact hd
+    | other k =>
+      unfold handleEventsE
+      have hd := hf.applyOther k o
+      generalize P.applyOther k o = x at hd
+      obtain ⟨o', e⟩ := x
+      cases e with
+      | none => exact (ih o').trans hd
+      | some e => exact hd
+
+theorem runPhase_frame {V : Type} (code : Code) (P : Prims V) (X : List Field) (hf : P.Frames X)
+    (t : Phase) (o : Obj V) : AgreeOff X (runPhase code P t o).1 o := by
+  unfold runPhase
+  have := handleEventsE_frame code P X hf (P.origOf o) t.1 o
+  generalize handleEventsE code P (P.origOf o) t.1 o = x at this
+  obtain ⟨o', e⟩ := x
+  cases e <;> exact this
+
+theorem wrapFeed_fst {V : Type} (code : Code) (x : Obj V × Option Err) : (wrapFeed code x).1 = x.1 := by
+  obtain ⟨o, e⟩ := x
+  cases e with
+  | none => rfl
+  | some e => simp only [wrapFeed]; split <;> rfl
+
+theorem builderFeedE_frame {V : Type} (code : Code) (P : Prims V) (X : List Field) (hf : P.Frames X) (o : Obj V) :
+    AgreeOff X (builderFeedE code P o).1 o := by
+  unfold builderFeedE
+  split
+  · exact AgreeOff.refl _ _
+  · have h1 : AgreeOff X (wrapFeed code (runPhase code P (P.tokFeed (P.markupOf o)) o)).1 o := by
+      rw [wrapFeed_fst]; exact runPhase_frame code P X hf _ o
+    generalize wrapFeed code (runPhase code P (P.tokFeed (P.markupOf o)) o) = x at h1
+    obtain ⟨o1, e⟩ := x
+    cases e with
+    | some e => exact h1
+    | none =>
+      simp only
+      split
+      · rw [wrapFeed_fst]; exact (runPhase_frame code P X hf _ o1).trans h1
+      · exact (runPhase_frame code P X hf _ o1).trans h1
+
+theorem soupFeedE_frame {V : Type} (code : Code) (P : Prims V) (X : List Field) (hf : P.Frames X) (o : Obj V) :
+    AgreeOff X (soupFeedE code P o).1 o := by
+  unfold soupFeedE
+  split
+  · exact AgreeOff.refl _ _
+  · have hb := builderFeedE_frame code P X hf o
+    generalize builderFeedE code P o = x at hb
+    obtain ⟨o', e⟩ := x
+    cases e with
+    | some e =>
+      simp only
+      split <;> exact hb
+    | none =>
+      simp only
+      have he := hf.endOfInput o'
+      generalize P.endOfInput o' = y at he
+      obtain ⟨o2, e2⟩ := y
+      cases e2 with
+      | none => exact he.trans hb
+      | some e2 =>
+        simp only
+        split <;> exact he.trans hb
+
+theorem AgreeOff.mono {V : Type} {X Y : List Field} {a b : Obj V} (h : AgreeOff X a b) (hxy : ∀ f, f ∈ X → f ∈ Y) :
+    AgreeOff Y a b := fun f hf => h f (fun hx => hf (hxy f hx))
+
+/-- the envelope model's machine satisfies the frame conditions of the retry theorems as soon as its callbacks do -/
+theorem machineE_wf {V : Type} (code : Code) (P : Prims V) (F : Frame V) (R H : List Field) (hF : F.WF R H)
+    (hf : P.Frames (R ++ H)) : (machineE code P F).WF R H :=
+  ⟨hF.headerKeys, hF.freshKeys, hF.freshFrame, fun o => soupFeedE_frame code P (R ++ H) hf o⟩
+
+/-! ### the concrete charref conversion is an instance of the envelope model -/
+
+theorem charrefNumber_error (name : PStr) (e : Err) (h : charrefNumber name = .error e) : e = .valueError := by
+  unfold charrefNumber at h
+  have hd : ∀ s, pyIntDec s = .error e → e = .valueError := by
+    intro s hs; unfold pyIntDec at hs; split at hs
+    · injection hs with hs; exact hs.symm
+    · split at hs
+      · injection hs with hs; exact hs.symm
+      · cases hs
+  have hx : ∀ s, pyIntHex s = .error e → e = .valueError := by
+    intro s hs; unfold pyIntHex at hs; simp only at hs; split at hs
+    · split at hs
+      · injection hs with hs; exact hs.symm
+      · cases hs
+    · injection hs with hs; exact hs.symm
+  split at h
+  · exact hx _ h
+  · exact hx _ h
+  · exact hd _ h
+
+theorem charrefNumberE_concrete {V : Type} (P : Prims V) (f : Nat → Nat → Dec1) (hP : P.CharrefConcrete f) (name : PStr) :
+    charrefNumberE P name = charrefNumber name := by
+  unfold charrefNumberE charrefNumber
+  rw [hP.intDec, hP.intHex]
+  split
+  · rfl
+  · rfl
+  · rename_i h1 h2
+    split
+    · rename_i t; exact absurd rfl (h1 t)
+    · rename_i t; exact absurd rfl (h2 t)
+    · rfl
+
+/-- one round of the decode loop, new vs old, for both variants of the clause -/
+theorem tryDecodeE_eq (catchAll : Bool) (x : Option Dec1) (n : Nat) (data : Option PStr) :
+    tryDecodeE (if catchAll then [Err.unicodeError] else [Err.unicodeDecodeError]) (x.map Dec1.toExcept) data
+      = tryDecode catchAll (x.map fun d => fun _ => d) n data := by
+  cases x with
+  | none => rfl
+  | some d => cases d <;> cases catchAll <;> rfl
+
+theorem charrefFinish_eq {V : Type} (P : Prims V) (f : Nat → Nat → Dec1) (hP : P.CharrefConcrete f) (code : Code)
+    (hc : code.charrefChr = [.valueError, .overflowError]) (n : Nat) (data : Option PStr) :
+    (match charrefChrE code P n data with
+      | .error c => (.error c : Except Err PStr)
+      | .ok data => .ok (if truthy data then data.getD [] else [0xFFFD])) = .ok (charrefFinish n data) := by
+  unfold charrefChrE charrefFinish
+  by_cases ht : truthy data = true
+  · simp [ht]
+  · simp only [ht, Bool.false_eq_true, if_false]
+    rw [hP.chrOf, hc]
+    by_cases hn : n ≤ Gen.C06.maxUnicode
+    · simp [hn, someOf, absorb]
+    · simp [hn, someOf, absorb, catches, Err.isSub, Err.sup, ht]
+
+theorem charrefDecodeE_eq {V : Type} (P : Prims V) (f : Nat → Nat → Dec1) (hP : P.CharrefConcrete f) (code : Code)
+    (catchAll : Bool) (hc : code.charrefDecode = if catchAll then [Err.unicodeError] else [Err.unicodeDecodeError])
+    (orig : Option Nat) (n : Nat) (hn : n < 256) :
+    charrefDecodeE code P orig n =
+      (match tryDecode catchAll (orig.map f) n none with
+       | .error e => .error e
+       | .ok d1 => tryDecode catchAll (some cp1252) n d1) := by
+  unfold charrefDecodeE
+  simp only [hn, if_true, hc]
+  have h1 : (orig.map fun e => P.dec1 e n) = ((orig.map fun e => f e n).map Dec1.toExcept) := by
+    cases orig <;> simp [hP.dec1]
+  have h2 : tryDecode catchAll (orig.map f) n none = tryDecode catchAll ((orig.map fun e => f e n).map fun d => fun _ => d) n none := by
+    cases orig <;> rfl
+  rw [h1, tryDecodeE_eq catchAll _ n, h2]
+  cases tryDecode catchAll ((orig.map fun e => f e n).map fun d => fun _ => d) n none with
+  | error e => rfl
+  | ok d1 =>
+    simp only
+    have h3 := tryDecodeE_eq catchAll (some (cp1252 n)) n d1
+    simp only [Option.map] at h3
+    rw [hP.dec1252, h3]
+    rfl
+
+theorem handleCharrefE_core {V : Type} (P : Prims V) (f : Nat → Nat → Dec1) (hP : P.CharrefConcrete f) (code : Code)
+    (catchAll : Bool) (hd : code.charrefDecode = if catchAll then [Err.unicodeError] else [Err.unicodeDecodeError])
+    (hc : code.charrefChr = [.valueError, .overflowError]) (orig : Option Nat) (n : Nat) :
+    charrefTailE code P orig n
+      = charrefFrom catchAll (orig.map f) n := by
+  unfold charrefFrom charrefTailE
+  by_cases hn : n < 256
+  · rw [charrefDecodeE_eq P f hP code catchAll hd orig n hn]
+    simp only [hn, if_true]
+    cases tryDecode catchAll (orig.map f) n none with
+    | error e => rfl
+    | ok d1 =>
+      simp only
+      cases tryDecode catchAll (some cp1252) n d1 with
+      | error e => rfl
+      | ok d2 => exact charrefFinish_eq P f hP code hc n d2
+  · simp only [hn, if_false]
+    have : charrefDecodeE code P orig n = .ok none := by unfold charrefDecodeE; simp [hn]
+    rw [this]
+    exact charrefFinish_eq P f hP code hc n none
+
+/-! ### UnicodeDammit without escaping exceptions is the model of `Construct.lean` -/
+
+theorem convertFromE_eq {V : Type} (code : Code) (P : Prims V) (encs : List Nat) (hq : Prims.DammitQuiet code P encs)
+    (st : DammitState) (e : Nat) (b : Bool) :
+    convertFromE code P st e b = .ok (convertFrom (Prims.env code P) st e b) := by
+  unfold convertFromE convertFrom Prims.env
+  obtain ⟨c, hc⟩ := hq.find e
+  simp only [hc]
+  cases c with
+  | none => rfl
+  | some c =>
+    simp only
+    split
+    · rfl
+    · cases hd : P.decode c b with
+      | ok u => rfl
+      | error x => simp [hq.decode c b x hd]
+
+theorem pass1E_eq {V : Type} (code : Code) (P : Prims V) (encs0 : List Nat) (hq : Prims.DammitQuiet code P encs0)
+    (encs : List Nat) (st : DammitState) :
+    pass1E code P (encs.map .ok) st = .ok (pass1 (Prims.env code P) encs st) := by
+  induction encs generalizing st with
+  | nil => rfl
+  | cons e es ih =>
+    simp only [List.map_cons, pass1E, pass1]
+    rw [convertFromE_eq code P encs0 hq]
+    generalize convertFrom (Prims.env code P) st e false = x
+    obtain ⟨u, st'⟩ := x
+    cases u with
+    | some u => rfl
+    | none => exact ih st'
+
+theorem pass2E_eq {V : Type} (code : Code) (P : Prims V) (encs0 : List Nat) (hq : Prims.DammitQuiet code P encs0)
+    (encs : List Nat) (u : Option PStr) (st : DammitState) :
+    pass2E code P (encs.map .ok) u st = .ok (pass2 (Prims.env code P) encs u st) := by
+  induction encs generalizing u st with
+  | nil => rfl
+  | cons e es ih =>
+    simp only [List.map_cons, pass2E, pass2]
+    have hr : (if P.isAscii e = true then (Except.ok (u, st) : Except Err (Option PStr × DammitState))
+        else convertFromE code P st e true)
+        = .ok (if (Prims.env code P).isAscii e = true then (u, st) else convertFrom (Prims.env code P) st e true) := by
+      show _ = Except.ok (if P.isAscii e = true then (u, st) else convertFrom (Prims.env code P) st e true)
+      split
+      · rfl
+      · exact convertFromE_eq code P encs0 hq st e true
+    rw [hr]
+    generalize (if (Prims.env code P).isAscii e = true then (u, st) else convertFrom (Prims.env code P) st e true) = r
+    by_cases hs : r.1.isSome = true
+    · simp only [hs, if_true, hq.log]
+    · simp only [hs, Bool.false_eq_true, if_false]
+      exact ih _ _
+
+theorem dammitE_eq {V : Type} (code : Code) (P : Prims V) (encs : List Nat) (hq : Prims.DammitQuiet code P encs) :
+    dammitE code P = .ok (dammit (Prims.env code P) encs) := by
+  unfold dammitE dammit
+  rw [hq.cands, pass1E_eq code P encs hq]
+  simp only
+  by_cases hf : firstPassEnough (pass1 (Prims.env code P) encs {}).1 = true
+  · simp only [hf, if_true]
+    split <;> (rename_i h; simp [h])
+  · simp only [hf, Bool.false_eq_true, if_false]
+    rw [pass2E_eq code P encs hq]
+    simp only
+    split <;> (rename_i h; simp [h])
 
 /-- the loop with attempts that end accepted, rejected or in `ParserRejectedMarkup` -/
 theorem retry_outcome_prm {V : Type} (m : Machine V)
